@@ -28,6 +28,7 @@ package ingress
 //@ func (*converter).syncIngressHTTP
 //@   props C15 C17 C01
 //@   safe x509.Certificate
+//@   loop 4 step first-wins: host.TLS.TLSHash == tlsPath.SHA1Hash || host.TLS.TLSHash != ""
 //@   at call Acquire#1 assert storage: $arg1 == secretName && secretName == ing.Namespace + "/" + tls.SecretName && ingName == ing.Namespace + "/" + ing.Name
 //@   at call TrackNames#1 assert acme-link: $arg1 == convtypes.ResourceIngress && $arg2 == ingName && $arg3 == convtypes.ResourceAcmeData && $arg4 == secretName
 //@ end
